@@ -612,6 +612,7 @@ def run (ctx):
   # ---- output side / accounting (E1-E8) ------------------------------------------------------------------------
   from . import c15b
   c15b.run(ctx, repo, mods, tp, tp_fallback)
+  c14._option_packers(ctx, repo)      # serialisers of nested structures: definite type conflicts, cursor/field agreement (shared with C14)
   # ---- D5 parser loops ----------------------------------------------------------------------------------------
   n_loops = 0
   for qual in local:
